@@ -602,6 +602,15 @@ func (c *Ctx) resolveTypeText(s string) types.Type {
 	if strings.HasPrefix(s, "*") {
 		return types.NewPointer(c.resolveTypeText(s[1:]))
 	}
+	if s == "struct{}" {
+		return types.NewStruct(nil, nil)
+	}
+	if strings.HasPrefix(s, "map[") {
+		// map[K]V with a bracket-free key type
+		if k := strings.IndexByte(s, ']'); k > 0 {
+			return types.NewMap(c.resolveTypeText(s[4:k]), c.resolveTypeText(s[k+1:]))
+		}
+	}
 	if c.pkg != nil && c.pkg.types != nil {
 		if k := strings.IndexByte(s, '.'); k > 0 {
 			// qualified: find imported package by name
